@@ -424,4 +424,487 @@ theorem reachR_scope {n : Nat} {s : S} (hr : ReachR n s) : Scope n s := by
   | newItem _ ih => exact ⟨ih.q, ih.cur, ih.mpc, ih.ipc, ih.wr⟩
   | noYields _ ih => exact ⟨ih.q, ih.cur, ih.mpc, ih.ipc, ih.wr⟩
 
+/-! ## the ages of outstanding requests against their positions in the run queue -/
+
+def PastPop : MPc → Prop
+  | .hRecv | .hRecvd | .hRel | .hReld | .wake | .woke _ => True
+  | _ => False
+
+/-- the drain loop of a pass has received NULL (and the plain code that follows has not run yet) -/
+def DrainDone (s : S) : Prop := (∃ c, s.mpc = .recvd c ∧ s.aq.recv = .idle) ∨ s.mpc = .taintF ∨ s.mpc = .taintFd
+
+/-- `f`, having waited `a` passes, is on the run queue with at most `nf - a - d - 1` fibres ahead of it -/
+def Bound (s : S) (f : Fid) (a d : Nat) : Prop := f ∈ s.k.runq ∧ s.k.runq.idxOf f + a + d ≤ s.a.nf
+
+structure KPost (s : S) : Prop where
+  k1 : ∀ f a, (f, a) ∈ s.a.owed → 0 < a → Bound s f a 1
+  k2 : ∀ f a, (f, a) ∈ s.a.owed → f ∈ s.a.atBegin → Bound s f a 2
+
+structure MonK (s : S) : Prop where
+  k1 : ∀ f a, (f, a) ∈ s.a.owed → 0 < a → Bound s f a 1
+  k2 : PastPop s.mpc → ∀ f a, (f, a) ∈ s.a.owed → f ∈ s.a.atBegin → Bound s f a 2
+  k3 : s.mpc = .fastDone true → s.a.atBegin = []
+  k5 : DrainDone s → ∀ f ∈ s.a.atBegin, f ∈ s.k.runq
+
+theorem bound_congr {s s' : S} {f : Fid} {a d : Nat} (hr : s'.k.runq = s.k.runq) (hn : s'.a.nf = s.a.nf) (h : Bound s f a d) :
+    Bound s' f a d := by
+  unfold Bound at *; rw [hr, hn]; exact h
+
+/-- senders only ever add fresh entries (age 0, not outstanding when the pass began) to the monitor's `owed` -/
+theorem owed_grow_sender {a a' : A} (h : EmitsP SenderObs a a') (hsub : ∀ f ∈ a.atBegin, f ∈ a.owedFids) :
+    ∀ x ∈ a'.owed, x ∈ a.owed ∨ (x.2 = 0 ∧ x.1 ∉ a.atBegin) := by
+  obtain ⟨l, hn, e⟩ := h
+  subst e
+  induction l generalizing a with
+  | nil => exact fun x hx => Or.inl hx
+  | cons o l ih =>
+    have ho := hn o List.mem_cons_self
+    have hsame := specSame_senderObs a o ho
+    have hsub' : ∀ f ∈ (a.step o).atBegin, f ∈ (a.step o).owedFids := by
+      intro f hf
+      rw [hsame.atBegin] at hf
+      exact owedFids_mono_sender (emitsP_one a o ho) f (hsub f hf)
+    intro x hx
+    rcases ih hsub' (fun y hy => hn y (List.mem_cons_of_mem _ hy)) x hx with h1 | ⟨h1, h2⟩
+    · cases o with
+      | accepted g =>
+        rw [owed_accepted] at h1
+        split at h1
+        · exact Or.inl h1
+        · rename_i hg
+          rcases List.mem_append.mp h1 with e | e
+          · exact Or.inl e
+          · rw [List.mem_singleton] at e; subst e
+            exact Or.inr ⟨rfl, fun hm => hg (hsub g hm)⟩
+      | rejected g => exact Or.inl h1
+      | evClaimed st => exact Or.inl h1
+      | evSent st ok =>
+        have : (a.step (.evSent st ok)).owed = a.owed := by simp only [A.step]; split <;> rfl
+        exact Or.inl (this ▸ h1)
+      | _ => exact False.elim ho
+    · exact Or.inr ⟨h1, by rw [hsame.atBegin] at h2; exact h2⟩
+
+/-- a step of a sender: the scheduler's side is untouched, the monitor gains fresh entries only -/
+theorem monK_sender {s s' : S} (h : MonK s) (hb : MonB s.a) (hk : s'.k = s.k) (hm : s'.mpc = s.mpc) (hr : s'.aq.recv = s.aq.recv)
+    (ha : EmitsP SenderObs s.a s'.a) : MonK s' := by
+  have hsame := specSame_emits ha
+  have hgrow := owed_grow_sender ha hb.sub
+  have hrq : s'.k.runq = s.k.runq := by rw [hk]
+  refine ⟨fun f a hfa hpos => ?_, fun hp f a hfa hat => ?_, fun hf => ?_, fun hd f hf => ?_⟩
+  · rcases hgrow _ hfa with h1 | ⟨h1, _⟩
+    · exact bound_congr hrq hsame.nf (h.k1 f a h1 hpos)
+    · simp only at h1; omega
+  · rw [hsame.atBegin] at hat
+    rcases hgrow _ hfa with h1 | ⟨_, h2⟩
+    · exact bound_congr hrq hsame.nf (h.k2 (hm ▸ hp) f a h1 hat)
+    · exact absurd hat h2
+  · rw [hsame.atBegin]; exact h.k3 (hm ▸ hf)
+  · rw [hsame.atBegin] at hf
+    rw [hrq]
+    apply h.k5 _ f hf
+    unfold DrainDone at hd ⊢
+    rw [hm, hr] at hd; exact hd
+
+theorem aged_flag (a : A) (v : Verdict) : (a.flag v).aged = a.aged := by
+  unfold A.aged; rw [flag_owed, (specRest_flag a v).atBegin]
+
+theorem owed_ageOwed (a : A) (hd : a.disturbed = false) : a.ageOwed.owed = a.aged := by
+  unfold A.ageOwed
+  rw [hd]
+  simp only [Bool.false_eq_true, if_false]
+  split
+  · rw [flag_owed]
+  · rfl
+
+theorem owed_passEnd (a : A) (b : Bool) (hd : a.disturbed = false) : (a.step (.passEnd b)).owed = a.aged := by
+  simp only [A.step]
+  split
+  · rw [owed_ageOwed _ (by rw [(specRest_flag a _).disturbed]; exact hd), aged_flag]
+  · exact owed_ageOwed a hd
+
+theorem mem_aged {a : A} {f : Fid} {n : Nat} (h : (f, n) ∈ a.aged) :
+    ((f, n) ∈ a.owed ∧ f ∉ a.atBegin) ∨ (∃ m, (f, m) ∈ a.owed ∧ f ∈ a.atBegin ∧ n = m + 1) := by
+  unfold A.aged at h
+  obtain ⟨x, hx, e⟩ := List.mem_map.mp h
+  split at e
+  · rename_i hm
+    injection e with e1 e2
+    subst e1
+    exact Or.inr ⟨x.2, hx, hm, e2.symm⟩
+  · rename_i hm
+    subst e
+    exact Or.inl ⟨hx, hm⟩
+
+/-- the pass ends: the requests that were outstanding when it began have waited one more pass — and are one place nearer
+    the head of the run queue -/
+theorem monK_finishPass {t : S} (h : KPost t) (hd : t.a.disturbed = false) (v : BitVec 32) : MonK (finishPass t v) := by
+  have ho : (finishPass t v).a.owed = t.a.aged := owed_passEnd t.a _ hd
+  have hn : (finishPass t v).a.nf = t.a.nf := nf_step _ _
+  refine ⟨fun f a hfa hpos => ?_, fun hp => False.elim hp, (fun hf => by cases hf), fun hdd => ?_⟩
+  · rw [ho] at hfa
+    apply bound_congr (s := t) (s' := finishPass t v) rfl hn
+    rcases mem_aged hfa with ⟨h1, _⟩ | ⟨m, h1, h2, e⟩
+    · exact h.k1 f a h1 hpos
+    · subst e
+      have := h.k2 f m h1 h2
+      exact ⟨this.1, by have := this.2; omega⟩
+  · rcases hdd with ⟨c, hc, _⟩ | hc | hc <;> cases hc
+
+/-- … so that no entry reaches the age `nf` -/
+theorem aged_lt_nf {t : S} (h : KPost t) (hpos : 1 ≤ t.a.nf) : ∀ x ∈ t.a.aged, x.2 < t.a.nf := by
+  rintro ⟨f, n⟩ hx
+  rcases mem_aged hx with ⟨h1, _⟩ | ⟨m, h1, h2, e⟩
+  · by_cases hn : 0 < n
+    · have := (h.k1 f n h1 hn).2; simp only; omega
+    · simp only; omega
+  · subst e
+    have := (h.k2 f m h1 h2).2
+    simp only; omega
+
+theorem kpost_congr {s s' : S} (h : KPost s) (hr : s'.k.runq = s.k.runq) (ho : s'.a.owed = s.a.owed) (hat : s'.a.atBegin = s.a.atBegin)
+    (hn : s'.a.nf = s.a.nf) : KPost s' :=
+  ⟨fun f a hfa hp => bound_congr hr hn (h.k1 f a (ho ▸ hfa) hp), fun f a hfa hb => bound_congr hr hn (h.k2 f a (ho ▸ hfa) (hat ▸ hb))⟩
+
+theorem monK_of_kpost {s' : S} (h : KPost s') (hnf : ∀ e, s'.mpc ≠ .fastDone e) (hnd : ¬ DrainDone s') : MonK s' :=
+  ⟨h.k1, fun _ => h.k2, fun hf => absurd hf (hnf true), fun hd => absurd hd hnd⟩
+
+theorem monK_returned {t : S} (h : KPost t) (hd : t.a.disturbed = false) (r : Ret) : MonK (returned t r) := by
+  unfold returned
+  split
+  · refine monK_finishPass ?_ ?_ _
+    · exact kpost_congr h rfl rfl rfl rfl
+    · exact hd
+  · refine monK_of_kpost (kpost_congr h rfl rfl rfl rfl) (fun e he => by cases he) ?_
+    rintro (⟨c, hc, _⟩ | hc | hc) <;> cases hc
+
+theorem monK_bodyOf {t : S} (h : KPost t) (hd : t.a.disturbed = false) (c : Fid) : MonK (bodyOf t c) := by
+  unfold bodyOf
+  split
+  · refine monK_of_kpost (kpost_congr h rfl rfl rfl rfl) (fun e he => by cases he) ?_
+    rintro (⟨c, hc, _⟩ | hc | hc) <;> cases hc
+  · split
+    · refine monK_returned ?_ ?_ _
+      · exact kpost_congr h rfl rfl rfl rfl
+      · exact hd
+    · exact monK_returned h hd _
+  · split
+    · refine monK_returned ?_ ?_ _
+      · refine kpost_congr h ?_ rfl rfl rfl
+        simp only [tok_k]; rw [runq_fibreTimeout, runq_fibreTimeout]
+      · exact hd
+    · refine monK_returned ?_ ?_ _
+      · refine kpost_congr h ?_ rfl rfl rfl
+        simp only [tok_k]; rw [runq_fibreTimeout]
+      · exact hd
+  · exact monK_returned h hd _
+
+/-- discharging a fibre removes obligations, never adds any -/
+theorem kpost_discharge {t : S} (h : KPost t) (c : Fid) : KPost (tok (.disp c) (emit (.dispatched c) { t with dispatchedNow := true })) := by
+  refine ⟨fun f a hfa hp => ?_, fun f a hfa hb => ?_⟩
+  · have hfa' : (f, a) ∈ t.a.owed.filter (fun x => x.1 ≠ c) := hfa
+    exact bound_congr (s := t) rfl rfl (h.k1 f a (List.mem_filter.mp hfa').1 hp)
+  · have hfa' : (f, a) ∈ t.a.owed.filter (fun x => x.1 ≠ c) := hfa
+    have hb' : f ∈ t.a.atBegin.filter (· ≠ c) := hb
+    exact bound_congr (s := t) rfl rfl (h.k2 f a (List.mem_filter.mp hfa').1 (List.mem_filter.mp hb').1)
+
+theorem monK_body {t : S} (h : KPost t) (hd : t.a.disturbed = false) (c : Fid) : MonK (body t c) :=
+  monK_bodyOf (kpost_discharge h c) hd c
+
+theorem monK_dispatch {t : S} (h : KPost t) (hd : t.a.disturbed = false) : MonK (dispatch t) := by
+  unfold dispatch
+  split
+  · exact monK_body h hd _
+  · refine monK_of_kpost (kpost_congr h rfl rfl rfl rfl) (fun e he => by cases he) ?_
+    rintro (⟨c, hc, _⟩ | hc | hc) <;> cases hc
+
+/-- `handle_timerq(); kernel.current = get_next_task();` and the dispatch: the head leaves the queue and is discharged, every
+    other outstanding request moves one place forward -/
+theorem monK_afterUpdate {t : S} (hk1 : ∀ f a, (f, a) ∈ t.a.owed → 0 < a → Bound t f a 1)
+    (hin : ∀ f ∈ t.a.atBegin, f ∈ t.k.runq) (hq : QOk t.k)
+    (hsc : ∀ f, (f ∈ t.k.runq ∨ f ∈ t.k.timerq) → f < t.a.nf) (hd : t.a.disturbed = false) : MonK (afterUpdate t) := by
+  obtain ⟨l, e, hl, _⟩ := handleTimerq_prefix t.k
+  have hq' := qok_handleTimerq hq
+  have hlen : (handleTimerq t.k).runq.length ≤ t.a.nf := by
+    apply length_le_of_bounded hq'.rn
+    intro x hx
+    rw [e] at hx
+    rcases List.mem_append.mp hx with h | h
+    · exact hsc x (Or.inl h)
+    · exact hsc x (Or.inr (hl x h))
+  unfold afterUpdate dispatch
+  cases hrq : (handleTimerq t.k).runq with
+  | nil =>
+    have eg : getNextTask (handleTimerq t.k) = { handleTimerq t.k with current := none } := by
+      unfold getNextTask; split
+      · rfl
+      · rename_i e'; rw [hrq] at e'; cases e'
+    rw [eg]
+    have hnil : t.k.runq = [] := by
+      rw [hrq] at e
+      exact (List.append_eq_nil_iff.mp e.symm).1
+    refine monK_of_kpost ⟨fun f a hfa hp => ?_, fun f a hfa hb => ?_⟩ (fun e he => by cases he) ?_
+    · have := (hk1 f a hfa hp).1; rw [hnil] at this; cases this
+    · have := hin f hb; rw [hnil] at this; cases this
+    · rintro (⟨c, hc, _⟩ | hc | hc) <;> cases hc
+  | cons c r =>
+    have eg : getNextTask (handleTimerq t.k) = { handleTimerq t.k with current := some c, runq := r } := by
+      unfold getNextTask; split
+      · rename_i e'; rw [hrq] at e'; cases e'
+      · rename_i f' r' e'; rw [hrq] at e'; cases e'; rfl
+    rw [eg]
+    show MonK (body { t with k := { handleTimerq t.k with current := some c, runq := r } } c)
+    unfold body
+    refine monK_bodyOf (t := tok (.disp c) (emit (.dispatched c)
+      { ({ t with k := { handleTimerq t.k with current := some c, runq := r } } : S) with dispatchedNow := true })) ?_ hd c
+    refine ⟨fun f a hfa hp => ?_, fun f a hfa hb => ?_⟩
+    all_goals
+      have hfa' : (f, a) ∈ t.a.owed.filter (fun x => x.1 ≠ c) := hfa
+      have hfo := (List.mem_filter.mp hfa').1
+      have hfc : f ≠ c := by simpa using (List.mem_filter.mp hfa').2
+    · -- an entry that has already waited
+      have hb := hk1 f a hfo hp
+      have hmem : f ∈ c :: r := by rw [← hrq, e]; exact List.mem_append_left _ hb.1
+      have hfr : f ∈ r := by rcases List.mem_cons.mp hmem with e' | e'; exact absurd e' hfc; exact e'
+      have hidx : (c :: r).idxOf f = t.k.runq.idxOf f := by rw [← hrq, e]; exact idxOf_append_mem hb.1
+      rw [idxOf_cons_ne' hfc] at hidx
+      refine ⟨hfr, ?_⟩
+      show r.idxOf f + a + 1 ≤ t.a.nf
+      have := hb.2; omega
+    · have hb' : f ∈ t.a.atBegin.filter (· ≠ c) := hb
+      have hft := hin f (List.mem_filter.mp hb').1
+      have hmem : f ∈ c :: r := by rw [← hrq, e]; exact List.mem_append_left _ hft
+      have hfr : f ∈ r := by rcases List.mem_cons.mp hmem with e' | e'; exact absurd e' hfc; exact e'
+      have hidx : (c :: r).idxOf f = t.k.runq.idxOf f := by rw [← hrq, e]; exact idxOf_append_mem hft
+      rw [idxOf_cons_ne' hfc] at hidx
+      refine ⟨hfr, ?_⟩
+      show r.idxOf f + a + 2 ≤ t.a.nf
+      by_cases hp : 0 < a
+      · have := (hk1 f a hfo hp).2; omega
+      · have h1 : (c :: r).idxOf f < (c :: r).length := List.idxOf_lt_length_of_mem hmem
+        rw [idxOf_cons_ne' hfc] at h1
+        rw [hrq] at hlen
+        omega
+
+theorem owed_killed (a : A) (f : Fid) : (a.step (.killed f)).owed = a.owed.filter (fun x => x.1 ≠ f) := by
+  simp only [A.step]; split <;> rfl
+
+theorem bound_makeRunnable {t : S} {g : Fid} {f : Fid} {a d : Nat} (h : Bound t f a d) :
+    Bound { t with k := makeRunnable t.k g } f a d :=
+  ⟨(mem_runq_makeRunnable g f).mpr (Or.inl h.1), by show (makeRunnable t.k g).runq.idxOf f + a + d ≤ _; rw [idxOf_makeRunnable h.1]; exact h.2⟩
+
+theorem monK_afterDrain {n : Nat} {t : S} (h : MonK t) (hb : MonB t.a) (hq : QOk t.k) (hsc : Scope n t) (hn : t.a.nf = n)
+    (hdd : DrainDone t) (c : Cont) (hcf : ∀ f, contFid c = some f → f < n) : MonK (afterDrain t c) := by
+  have scq : ∀ f, (f ∈ t.k.runq ∨ f ∈ t.k.timerq) → f < t.a.nf := by rw [hn]; exact hsc.q
+  cases c with
+  | run f =>
+    refine ⟨fun g a hga hp => bound_makeRunnable (h.k1 g a hga hp), fun hp => False.elim hp, (fun hf => by cases hf), fun hd => ?_⟩
+    rcases hd with ⟨c, hc, _⟩ | hc | hc <;> cases hc
+  | kill f =>
+    refine ⟨fun g a hga hp => ?_, fun hp => False.elim hp, (fun hf => by cases hf), fun hd => ?_⟩
+    · have hga' : (g, a) ∈ (t.a.step (.killed f)).owed := hga
+      rw [owed_killed] at hga'
+      have hm := List.mem_filter.mp hga'
+      have hgf : g ≠ f := by simpa using hm.2
+      have hbd := h.k1 g a hm.1 hp
+      refine ⟨(List.mem_erase_of_ne hgf).mpr hbd.1, ?_⟩
+      show (t.k.runq.erase f).idxOf g + a + 1 ≤ (t.a.step (.killed f)).nf
+      rw [nf_step]
+      have := idxOf_erase_le hgf t.k.runq hbd.1
+      have := hbd.2
+      omega
+    · rcases hd with ⟨c, hc, _⟩ | hc | hc <;> cases hc
+  | pass1 =>
+    simp only [afterDrain]
+    split
+    · exact monK_afterUpdate h.k1 (h.k5 hdd) hq scq hb.dist
+    · split
+      · refine ⟨h.k1, fun hp => False.elim hp, (fun hf => by cases hf), fun hd => ?_⟩
+        rcases hd with ⟨c, hc, _⟩ | hc | hc <;> cases hc
+      · exact ⟨h.k1, fun hp => False.elim hp, (fun hf => by cases hf), fun _ => h.k5 hdd⟩
+      · exact monK_afterUpdate (t := { t with k := { t.k with priv := _ } }) h.k1 (h.k5 hdd) (qok_lists hq rfl rfl) scq hb.dist
+      · exact monK_afterUpdate h.k1 (h.k5 hdd) hq scq hb.dist
+  | pass2 c =>
+    have hc : c < n := hcf c rfl
+    have hks : KScope n (makeRunnable t.k c) := kscope_makeRunnable ⟨hsc.q, hsc.cur⟩ c hc
+    exact monK_afterUpdate (t := { t with k := makeRunnable t.k c })
+      (fun g a hga hp => bound_makeRunnable (h.k1 g a hga hp))
+      (fun g hg => (mem_runq_makeRunnable c g).mpr (Or.inl (h.k5 hdd g hg)))
+      (qok_makeRunnable hq c) (by rw [hn]; exact hks.q) hb.dist
+
+/-- the same scheduler lists and monitor entries, at a control location of the same phase -/
+theorem monK_same {s s' : S} (h : MonK s) (hr : s'.k.runq = s.k.runq) (ho : s'.a.owed = s.a.owed) (hat : s'.a.atBegin = s.a.atBegin)
+    (hn : s'.a.nf = s.a.nf) (hpp : PastPop s'.mpc → PastPop s.mpc) (hfd : s'.mpc = .fastDone true → s.mpc = .fastDone true)
+    (hdd : DrainDone s' → DrainDone s) : MonK s' :=
+  ⟨fun f a hfa hp => bound_congr hr hn (h.k1 f a (ho ▸ hfa) hp),
+   fun hp f a hfa hb => bound_congr hr hn (h.k2 (hpp hp) f a (ho ▸ hfa) (hat ▸ hb)),
+   fun hf => by rw [hat]; exact h.k3 (hfd hf),
+   fun hd f hf => by rw [hr]; exact h.k5 (hdd hd) f (hat ▸ hf)⟩
+
+/-- with no sender inside a call and the drain loop holding nothing: a fibre owed a dispatch whose request is not in
+    the atomic queue is on the run queue -/
+theorem owed_in_runq {s : S} (hr : Reach s) (hnh : NoHeld s) (hempty : s.aq.received = s.aq.claimed) :
+    ∀ f ∈ s.a.owedFids, f ∈ s.k.runq := by
+  intro f hf
+  rcases reach_inv3 hr f hf with ⟨k, k1, k2, _, _⟩ | h | h
+  · omega
+  · exact h
+  · exact absurd h (hnh f)
+
+theorem monK_mainAtomic {s : S} (hr : Reach s) (hq : Quiet s) (hb : MonB s.a) (h : MonK s) : MonK (mainAtomic s) := by
+  have h1 := reach_inv1 hr
+  have hma := h1.mainAq
+  unfold mainAtomic
+  split
+  · -- the fast-path check
+    rename_i hpc
+    refine ⟨h.k1, fun hp => False.elim hp, fun hf => ?_, fun hd => ?_⟩
+    · have hf' : MPc.fastDone (mqEmpty s.aq) = MPc.fastDone true := hf
+      injection hf' with he
+      have hfast := (reach_inv2 hr).fast (by rw [hpc]; trivial)
+      -- nothing is owed: an owed fibre would be in the (non-empty) atomic queue or on the (empty) run queue
+      have hnone : s.a.owedFids = [] := by
+        cases hl : s.a.owedFids with
+        | nil => rfl
+        | cons f r =>
+          exfalso
+          have hf : f ∈ s.a.owedFids := by rw [hl]; exact List.mem_cons_self
+          rcases reach_inv3 hr f hf with h' | h' | ⟨c, _, _, hc, _, _⟩
+          · have := not_empty_of_inAq h1 (reach_owned hr).1 hq h'
+            rw [this] at he; cases he
+          · rw [hfast.1] at h'; cases h'
+          · rw [hpc] at hc; cases hc
+      show s.a.atBegin = []
+      cases hl : s.a.atBegin with
+      | nil => rfl
+      | cons f r =>
+        have := hb.sub f (by rw [hl]; exact List.mem_cons_self)
+        rw [hnone] at this; cases this
+    · rcases hd with ⟨c, hc, _⟩ | hc | hc <;> cases hc
+  · -- the drain loop's receive
+    rename_i c hpc
+    rw [hpc] at hma
+    refine ⟨h.k1, fun hp => False.elim hp, (fun hf => by cases hf), fun hd f hf => ?_⟩
+    rcases hd with ⟨c', _, hidle⟩ | hc | hc
+    · have hidle' : (step s.aq (.recv false)).recv = .idle := hidle
+      have hemp := drain_complete h1 (reach_owned hr).1 hq hma hidle'
+      exact owed_in_runq hr (noHeld_of_mpc (by rw [hpc]; intro c; simp)) hemp f (hb.sub f hf)
+    · cases hc
+    · cases hc
+  · rename_i c hpc
+    refine ⟨h.k1, fun hp => False.elim hp, (fun hf => by cases hf), fun hd => ?_⟩
+    rcases hd with ⟨c', hc, _⟩ | hc | hc <;> cases hc
+  · rename_i hpc
+    exact ⟨h.k1, fun hp => False.elim hp, (fun hf => by cases hf), fun _ => h.k5 (Or.inr (Or.inl hpc))⟩
+  · rename_i hpc
+    refine ⟨h.k1, fun _ => h.k2 (by rw [hpc]; trivial), (fun hf => by cases hf), fun hd => ?_⟩
+    rcases hd with ⟨c', hc, _⟩ | hc | hc <;> cases hc
+  · rename_i hpc
+    refine ⟨h.k1, fun _ => h.k2 (by rw [hpc]; trivial), (fun hf => by cases hf), fun hd => ?_⟩
+    rcases hd with ⟨c', hc, _⟩ | hc | hc <;> cases hc
+  · rename_i hpc
+    refine ⟨h.k1, fun _ => h.k2 (by rw [hpc]; trivial), (fun hf => by cases hf), fun hd => ?_⟩
+    rcases hd with ⟨c', hc, _⟩ | hc | hc <;> cases hc
+  · exact h
+
+theorem monK_mainPlain {n : Nat} {s : S} (hr : Reach s) (hb : MonB s.a) (hsc : Scope n s) (hn : s.a.nf = n) (h : MonK s) :
+    MonK (mainPlain s) := by
+  have h1 := reach_inv1 hr
+  have hq2 := (reach_inv2 hr).q
+  have hma := h1.mainAq
+  have notDD : ∀ (s' : S), (∀ c, s'.mpc ≠ .recvd c) → s'.mpc ≠ .taintF → s'.mpc ≠ .taintFd → ¬ DrainDone s' := by
+    intro s' a b c hd
+    rcases hd with ⟨c', hc, _⟩ | hc | hc
+    · exact a c' hc
+    · exact b hc
+    · exact c hc
+  unfold mainPlain
+  split
+  · rename_i c hpc
+    cases c with
+    | next t =>
+      simp only [startCall]; unfold startNext
+      split
+      · exact ⟨h.k1, fun hp => False.elim hp, (fun hf => by cases hf), fun hd => absurd hd (notDD _ (by simp) (by simp) (by simp))⟩
+      · exact ⟨h.k1, fun hp => False.elim hp, (fun hf => by cases hf), fun hd => absurd hd (notDD _ (by simp) (by simp) (by simp))⟩
+    | run f =>
+      simp only [startCall]
+      exact ⟨h.k1, fun hp => False.elim hp, (fun hf => by cases hf), fun hd => absurd hd (notDD _ (by simp) (by simp) (by simp))⟩
+    | kill f =>
+      simp only [startCall]
+      exact ⟨h.k1, fun hp => False.elim hp, (fun hf => by cases hf), fun hd => absurd hd (notDD _ (by simp) (by simp) (by simp))⟩
+  · -- fastDone
+    rename_i e hpc
+    split
+    · rename_i he
+      subst he
+      have hnil := h.k3 hpc
+      exact monK_dispatch ⟨h.k1, fun f a _ hb' => by rw [hnil] at hb'; cases hb'⟩ hb.dist
+    · exact ⟨h.k1, fun hp => False.elim hp, (fun hf => by cases hf), fun hd => absurd hd (notDD _ (by simp) (by simp) (by simp))⟩
+  · -- recvd c
+    rename_i c hpc
+    rw [hpc] at hma
+    split
+    · refine ⟨fun g a hga hp => bound_makeRunnable (h.k1 g a hga hp), fun hp => False.elim hp, (fun hf => by cases hf),
+              fun hd => absurd hd (notDD _ (by simp) (by simp) (by simp))⟩
+    · rename_i hnh
+      rcases hma with hma | ⟨sl, k, hrv⟩
+      · exact monK_afterDrain h hb hq2 hsc hn (Or.inl ⟨c, hpc, hma⟩) c (fun f hf => hsc.mpc f (by rw [hpc]; exact hf))
+      · exact absurd hrv (hnh sl k)
+  · rename_i c hpc
+    exact ⟨h.k1, fun hp => False.elim hp, (fun hf => by cases hf), fun hd => absurd hd (notDD _ (by simp) (by simp) (by simp))⟩
+  · -- taintFd
+    rename_i hpc
+    have hdd : DrainDone s := Or.inr (Or.inr hpc)
+    have e1 : (resetPriv s).k.runq = s.k.runq := by unfold resetPriv; split <;> rfl
+    have e2 : (resetPriv s).k.timerq = s.k.timerq := by unfold resetPriv; split <;> rfl
+    have e3 : (resetPriv s).a = s.a := by unfold resetPriv; split <;> rfl
+    refine monK_afterUpdate (t := resetPriv s) ?_ ?_ (qok_lists hq2 e1 e2) ?_ (by rw [e3]; exact hb.dist)
+    · intro f a hfa hp
+      rw [e3] at hfa
+      exact bound_congr e1 (by rw [e3]) (h.k1 f a hfa hp)
+    · intro f hf; rw [e3] at hf; rw [e1]; exact h.k5 hdd f hf
+    · intro f hf; rw [e1, e2] at hf; rw [e3, hn]; exact hsc.q f hf
+  · -- hRecvd
+    rename_i hpc
+    have hpp : PastPop s.mpc := by rw [hpc]; trivial
+    split
+    · refine ⟨fun f a hfa hp => ?_, fun _ f a hfa hb' => ?_, (fun hf => by cases hf),
+              fun hd => absurd hd (notDD _ (by simp) (by simp) (by simp))⟩
+      · have hfa' : (f, a) ∈ (s.a.step (.evProcessed _)).owed := hfa
+        rw [owed_evProcessed] at hfa'
+        exact bound_congr (s := s) rfl (nf_step _ _) (h.k1 f a hfa' hp)
+      · have hfa' : (f, a) ∈ (s.a.step (.evProcessed _)).owed := hfa
+        have hb2 : f ∈ (s.a.step (.evProcessed _)).atBegin := hb'
+        rw [owed_evProcessed] at hfa'
+        rw [(specSame_evProcessed s.a _).1] at hb2
+        exact bound_congr (s := s) rfl (nf_step _ _) (h.k2 hpp f a hfa' hb2)
+    · exact monK_returned ⟨h.k1, h.k2 hpp⟩ hb.dist _
+  · rename_i hpc
+    exact ⟨h.k1, fun _ => h.k2 (by rw [hpc]; trivial), (fun hf => by cases hf), fun hd => absurd hd (notDD _ (by simp) (by simp) (by simp))⟩
+  · rename_i e hpc
+    exact monK_finishPass ⟨h.k1, h.k2 (by rw [hpc]; trivial)⟩ hb.dist _
+  · exact h
+
+theorem reachR_monK {n : Nat} {s : S} (hr : ReachR n s) : MonK s := by
+  induction hr with
+  | init d kinds budgets h1 h32 hn =>
+    refine ⟨(fun f a hfa _ => by simp [initWith] at hfa), fun hp => False.elim hp, (fun hf => by cases hf), fun hd => ?_⟩
+    rcases hd with ⟨c, hc, _⟩ | hc | hc <;> cases hc
+  | mainPlain hr _ ih => exact monK_mainPlain (reachR_reach hr) (reachR_monB hr) (reachR_scope hr) (reachR_nf hr) ih
+  | mainAtomic hr hq ih => exact monK_mainAtomic (reachR_reach hr) hq (reachR_monB hr) ih
+  | enterMain c _ _ hidle _ ih =>
+    refine ⟨ih.k1, fun hp => False.elim hp, (fun hf => by cases hf), fun hd => ?_⟩
+    rcases hd with ⟨c, hc, _⟩ | hc | hc <;> cases hc
+  | senderPlain i hi hr ih =>
+    exact monK_sender ih (reachR_monB hr) (senderPlain_k i _) (senderPlain_mpc i _)
+      (by rcases senderPlain_aq i _ with e | ⟨v, e⟩ <;> rw [e]; rw [sender_recv]) (sobs_senderPlain i _)
+  | senderAtomic i hi hr ih =>
+    exact monK_sender ih (reachR_monB hr) (senderAtomic_k i _) (senderAtomic_mpc i _)
+      (by rcases senderAtomic_aq i _ with e | ⟨v, e⟩ <;> rw [e]; rw [sender_recv]) (sobs_senderAtomic i _)
+  | enterSender i c hi _ hidle _ ih => exact monK_same ih rfl rfl rfl rfl (fun h => h) (fun h => h) (fun h => h)
+  | tok t _ ih => exact monK_same ih rfl rfl rfl rfl (fun h => h) (fun h => h) (fun h => h)
+  | nops k _ ih => exact monK_same ih rfl rfl rfl rfl (fun h => h) (fun h => h) (fun h => h)
+  | newItem _ ih => exact monK_same ih rfl rfl rfl rfl (fun h => h) (fun h => h) (fun h => h)
+  | noYields _ ih => exact monK_same ih rfl rfl rfl rfl (fun h => h) (fun h => h) (fun h => h)
+
 end Librfn.Isr.L
